@@ -251,7 +251,33 @@ def run_case(res, case):
 
 
 def check_advance_defaults(res):
-    '''agent-side advances are forwarded by default, client-side are not'''
+    '''agent-side advances are forwarded by default, client-side are not; an
+    explicit `fwd` argument is what the published message carries, whatever
+    the other arguments (`prof`, `publish`, `push`, `ts`) are'''
+    for cls, default in ((m_comp.AgentComponent, True),
+                         (m_comp.ClientComponent, False)):
+        for state in (rps.AGENT_EXECUTING, rps.FAILED):
+            for fwd in (True, False):
+                for prof in (None, True, False):
+                    c = cls.__new__(cls)
+                    c._log, c._prof = NullLog(), NullProf()
+                    c._publishers = {rpc.STATE_PUBSUB:
+                                     RecPublisher(rpc.STATE_PUBSUB)}
+                    c._outputs = dict()
+                    kw = {'publish': True, 'push': False, 'fwd': fwd}
+                    if prof is not None:
+                        kw['prof'] = prof
+                    c.advance({'uid': 't.0', 'type': 'task',
+                               'state': rps.NEW}, state, **kw)
+                    msg = c._publishers[rpc.STATE_PUBSUB].msgs[-1]
+                    res.count('advance_explicit_checked')
+                    if bool(msg.get('fwd')) != fwd:
+                        res.violation('advance-forward-explicit/%s'
+                                      % cls.__name__,
+                                      '%s.advance(%s, fwd=%r, prof=%r) '
+                                      'published fwd=%r' % (cls.__name__, state,
+                                      fwd, prof, msg.get('fwd')),
+                                      {'class': cls.__name__, 'state': state})
     for cls, expect in ((m_comp.AgentComponent, True),
                         (m_comp.ClientComponent, False)):
         for state in (rps.AGENT_EXECUTING, rps.FAILED):
